@@ -506,6 +506,13 @@ impl Check for C23 {
         }
         c
     }
+    fn prepare(&self, args: &vcore::Args) -> Result<(), String> {
+        // thorough: bounded libFuzzer run of the `parse` target; artifacts become replay files
+        crate::fuzzbridge::prepare_thorough(&crate::fuzzbridge::FuzzPlan { id: "C23", target: "parse", runs: 4_000_000, max_total_time_s: 600, timeout_s: 10 }, args)
+    }
+    fn extra_coverage(&self) -> serde_json::Map<String, serde_json::Value> {
+        crate::fuzzbridge::coverage()
+    }
     fn fixed_cases(&self, tier: Tier) -> Vec<Case> {
         let mut v = Vec::new();
         for s in POOL {
